@@ -18,8 +18,9 @@ RULE = (
     "(blanks, tabs, newlines, /* */ comments single- and multi-line with keywords, braces, semicolons, quotes, '//' and "
     "'*' runs inside, // comments) at token boundaries, optionally CRLF line ends; dependency-respecting permutations of "
     "the items; splitting the text into several load() calls. Oracle: signature(edited) == signature(base), where the "
-    "signature lists for every user-visible name its kind, size, alignment, fields (name, recursive type signature, bits, "
-    "offset), enum members and values, constants, plus parse results on pattern inputs. Alias stage: typedef chains and "
+    "signature lists for every user-visible name its kind, the name of the type itself, size, alignment, fields (name, recursive type signature, bits, "
+    "offset), enum members and values, constants, plus parse results on pattern inputs; up to four items are also loaded "
+    "with nothing but their own dependencies and must have the signature they have inside the full set. Alias stage: typedef chains and "
     "multiple names are the very same type object, built-in synonyms too; re-declaring an alias is accepted for the same "
     "target only; unknown and cyclic aliases raise ResolveError within a watchdog. Non-trivial = >= 3 insertions incl. a "
     "comment, or a permutation that moves an item, or a multi-load split; distinct by (text, edit)."
@@ -106,9 +107,10 @@ def type_sig(m, t, seen=()):
         fields = []
         for f in t.__fields__:
             fields.append((f.name if f.name else "<anon>", type_sig(m, f.type, seen + (t,)), f.bits, f.offset))
-        return ("union" if issubclass(t, m.Union) else "struct", t.size, t.alignment, tuple(fields), tuple(k if "anonymous" not in k else "<anon>" for k in t.fields))
+        return ("union" if issubclass(t, m.Union) else "struct", name if "anonymous" not in name else "<anon>", t.size, t.alignment, tuple(fields),
+                tuple(k if "anonymous" not in k else "<anon>" for k in t.fields))
     if issubclass(t, (m.Enum, m.Flag)):
-        return ("flag" if issubclass(t, m.Flag) else "enum", t.type.__name__, tuple((k, int(v.value)) for k, v in t.__members__.items()))
+        return ("flag" if issubclass(t, m.Flag) else "enum", name if "anonymous" not in name else "<anon>", t.type.__name__, tuple((k, int(v.value)) for k, v in t.__members__.items()))
     if issubclass(t, m.Pointer):
         return ("ptr", type_sig(m, t.type, seen))
     from dissect.cstruct.types.base import BaseArray
@@ -228,30 +230,31 @@ def run_case(case, ctx):
         )
     # isolation: an item loaded with nothing but its own dependencies has the signature it has in the full set
     if case["edit"] in ("order", "mixed") and items:
-        pick = items[(case.get("perm") or [0])[0] % len(items)]
         provides = {}
         for i, it in enumerate(items):
             for n_ in it.names + [it.name]:
                 provides[n_] = i
-        need = set()
-        todo = [provides[pick.name]]
-        while todo:
-            i = todo.pop()
-            if i in need:
-                continue
-            need.add(i)
-            todo += [provides[d] for d in items[i].deps if d in provides]
-        solo = _load(m, ["".join(items[i].text for i in sorted(need))], case)
-        if isinstance(solo, Err):
-            raise Violation("definition-rejected", f"item with its dependencies only rejected: {solo}\n{''.join(items[i].text for i in sorted(need))}", solo.where)
-        pnames = [n_ for n_ in pick.names if pick.kind != "define"]
-        ssig = signature(m, solo, pnames, None)
-        for k_ in pnames + [n_ + "@parse" for n_ in pnames]:
-            if k_ in ssig and ssig[k_] != bsig.get(k_):
-                raise Violation(
-                    "unrelated-definitions-interfere",
-                    f"{k_}: loaded with only its dependencies {ssig[k_]!r}, inside the full definition set {bsig.get(k_)!r}\n--- full\n{base_text}\n--- alone\n{''.join(items[i].text for i in sorted(need))}",
-                )
+        first = (case.get("perm") or [0])[0] % len(items)
+        for pick in [items[first]] + [it for j, it in enumerate(items) if j != first and it.kind in ("typedef_struct", "struct", "union")][:3]:
+            need = set()
+            todo = [provides[pick.name]]
+            while todo:
+                i = todo.pop()
+                if i in need:
+                    continue
+                need.add(i)
+                todo += [provides[d] for d in items[i].deps if d in provides]
+            solo = _load(m, ["".join(items[i].text for i in sorted(need))], case)
+            if isinstance(solo, Err):
+                raise Violation("definition-rejected", f"item with its dependencies only rejected: {solo}\n{''.join(items[i].text for i in sorted(need))}", solo.where)
+            pnames = [n_ for n_ in pick.names if pick.kind != "define"]
+            ssig = signature(m, solo, pnames, None)
+            for k_ in pnames + [n_ + "@parse" for n_ in pnames]:
+                if k_ in ssig and ssig[k_] != bsig.get(k_):
+                    raise Violation(
+                        "unrelated-definitions-interfere",
+                        f"{k_}: loaded with only its dependencies {ssig[k_]!r}, inside the full definition set {bsig.get(k_)!r}\n--- full\n{base_text}\n--- alone\n{''.join(items[i].text for i in sorted(need))}",
+                    )
         ctx.count("isolation:checked")
     ctx.count("edit:" + case["edit"])
     if case.get("crlf"):
